@@ -109,6 +109,13 @@ class C08(CheckBase):
             for cause in causes:
                 for phase in (["pre", "post"] if cause in ("force_disconnect", "disconnect", "cancel") else ["pre"]):
                     yield with_cause(base, cause, {"turn": n}, phase, rng)
+        # the freshly connected socket fails an OS call of the connect phase, or every write on a closing transport raises
+        import copy
+
+        for kn in ({"sock_fail": "nodelay"}, {"sock_fail": "getpeername"}):
+            v = copy.deepcopy(base)
+            v.setdefault("knobs", {}).update(kn)
+            yield v
 
     def oracle(self, run: Any, scn: dict) -> list[Violation]:
         return release_oracle(Index(run.history))
